@@ -212,20 +212,75 @@ pub fn run(cfg: &Config) -> i32 {
     let n = ndocs * (variants + 1);
     let root = vec!["fields".to_string()];
     // rule-violating messages of the C04 enumeration (sweep points), in the envelope of a corpus message of the type
-    let mut extra: Vec<(String, Value)> = Vec::new();
+    let mut extra: Vec<(String, Value, &str)> = Vec::new();
     for (mt, body) in crate::props::c04::sweep_bodies(cfg.tier.pick(300usize, 6000usize)) {
         if let Some((_, env)) = docs.iter().find(|d| d.0 == mt) {
             let mut j = env.clone();
             j["fields"] = body;
-            extra.push((mt, j));
+            extra.push((mt, j, "c04-point"));
+        }
+    }
+    // repeated elements: every array of every corpus message with its first element three times over (the same
+    // violation reported twice with the same words is where a de-duplicating adapter differs from the full list)
+    {
+        fn arrays(v: &Value, path: &mut Vec<String>, out: &mut Vec<Vec<String>>) {
+            match v {
+                Value::Object(m) => {
+                    for (k, x) in m {
+                        path.push(k.clone());
+                        arrays(x, path, out);
+                        path.pop();
+                    }
+                }
+                Value::Array(a) => {
+                    if !a.is_empty() {
+                        out.push(path.clone());
+                    }
+                    if let Some(x) = a.first() {
+                        path.push("0".into());
+                        arrays(x, path, out);
+                        path.pop();
+                    }
+                }
+                _ => {}
+            }
+        }
+        fn at<'a>(v: &'a mut Value, path: &[String]) -> Option<&'a mut Value> {
+            let mut cur = v;
+            for p in path {
+                cur = match cur {
+                    Value::Object(m) => m.get_mut(p)?,
+                    Value::Array(a) => a.get_mut(p.parse::<usize>().ok()?)?,
+                    _ => return None,
+                };
+            }
+            Some(cur)
+        }
+        let mut seen = std::collections::BTreeSet::new();
+        for (mt, doc) in &docs {
+            let mut paths = Vec::new();
+            arrays(&doc["fields"], &mut vec!["fields".to_string()], &mut paths);
+            for pth in paths {
+                if !seen.insert((mt.clone(), pth.clone())) {
+                    continue;
+                }
+                for times in [2usize, 3] {
+                    let mut j = doc.clone();
+                    if let Some(Value::Array(a)) = at(&mut j, &pth) {
+                        let first = a[0].clone();
+                        *a = vec![first; times];
+                    }
+                    extra.push((mt.clone(), j, "repeated-element"));
+                }
+            }
         }
     }
     let nextra = extra.len() as u64;
     let total = par_for(cfg, n + nextra, |i, l| {
         if i >= n {
-            let (mt, j) = &extra[(i - n) as usize];
+            let (mt, j, lab) = &extra[(i - n) as usize];
             let case = Case::Json { mt: mt.clone(), json: j.to_string() };
-            judge(cfg, &case, l, &format!("MT{mt}/c04-point"));
+            judge(cfg, &case, l, &format!("MT{mt}/{lab}"));
             return;
         }
         let d = (i % ndocs) as usize;
